@@ -559,19 +559,42 @@ pub fn conclude(cli: &Cli, ev: &mut Evidence, mut violations: Vec<Violation>) ->
             continue;
         }
         // Replay must reproduce in a fresh process.
-        let out = std::process::Command::new(&cli.exe)
-            .arg(&cli.target)
-            .arg("--replay")
-            .arg(&path)
-            .env("VERIF_ROOT", verif_root())
-            .output();
-        let ok = match out {
-            Ok(o) => {
-                let so = String::from_utf8_lossy(&o.stdout);
-                o.status.code() == Some(EXIT_VIOLATION) && so.contains(&format!("sig={} ", v.sig))
+        let attempt = |path: &Path| -> bool {
+            let out = std::process::Command::new(&cli.exe)
+                .arg(&cli.target)
+                .arg("--replay")
+                .arg(path)
+                .env("VERIF_ROOT", verif_root())
+                .output();
+            match out {
+                Ok(o) => {
+                    let so = String::from_utf8_lossy(&o.stdout);
+                    o.status.code() == Some(EXIT_VIOLATION) && so.contains(&format!("sig={} ", v.sig))
+                }
+                Err(_) => false,
             }
-            Err(_) => false,
         };
+        let mut ok = attempt(&path);
+        if !ok {
+            // a replay file that carries a minimised schedule also carries the unminimised execution
+            // (workload + seed) it was derived from; fall back on that one rather than lose the verdict
+            if let Some(fb) = replay.get("seed_only_fallback").cloned() {
+                let mut fb = fb;
+                if let Value::Object(m) = &mut fb {
+                    m.insert("property".into(), json!(v.property));
+                    m.insert(
+                        "violation".into(),
+                        json!({"class": v.class, "sig": v.sig, "message": v.message, "note": "the schedule-minimised replay did not reproduce in a fresh process; this is the execution as found"}),
+                    );
+                }
+                if write_json(&path, &fb).is_ok() {
+                    ok = attempt(&path);
+                    if ok {
+                        eprintln!("note: schedule-minimised replay of sig={} did not reproduce; seed-only replay written instead", v.sig);
+                    }
+                }
+            }
+        }
         if !ok {
             eprintln!(
                 "harness error: replay {} does not reproduce sig={} in a fresh process",
@@ -725,6 +748,8 @@ fn describe_exit(st: &std::process::ExitStatus) -> String {
             _ => "signal",
         };
         format!("{}({})", name, sig)
+    } else if st.code() == Some(mos_simrt::alloc_seam::EXIT_MEMORY_BUDGET) {
+        "memory_budget(the simulated process held more than 3 GiB of live allocations)".to_string()
     } else {
         format!("exit({})", st.code().unwrap_or(-1))
     }
